@@ -57,7 +57,7 @@ def err_arm_ok(arm_body, errvar):
     return False
 
 
-def classify_match(m):
+def classify_match(m, producer=None):
     """(verdict, detail) for `match <io result> { Ok.. , Err(e) => .. }`"""
     for a in m["arms"]:
         p = a["pat"]
@@ -67,6 +67,9 @@ def classify_match(m):
                 # `Err(e) if e.kind() == ErrorKind::UnexpectedEof => ..`: the end of the input is not a failure (C19 decides
                 # what it maps to); the arm that takes every other error is the one examined here
                 if re.fullmatch(r"\(?%s\.kind\(\) == (io::)?ErrorKind::UnexpectedEof\)?" % re.escape(ev or "?"), H.render(a["guard"])):
+                    # ... but only where records are read: an input that ends inside the global header, or a write, is a failure
+                    if producer is not None and producer not in ("next_packet", "read_record", "read_packet") and not err_arm_ok(a["body"], ev or "?"):
+                        return False, "the end of the input is not reported as an error for %s (only reading the next record may end quietly)" % producer
                     continue
                 if ev and err_arm_ok(a["body"], ev):
                     continue
@@ -92,13 +95,14 @@ def consumers(F, g, p, b):
         if H.is_try(par.get(id(x)) or {}):
             continue
         key = "%s#%d %s" % (p, k, H.last(x.get("callee") or x.get("m") or "?"))
+        prod = H.last(x.get("callee") or x.get("m") or "?")
         k += 1
         pa = par.get(id(x))
         loc = F.loc(g, x.get("line"))
         kind = pa.get("k") if pa else None
         ok, det = False, "unrecognised consumer: %s" % kind
         if kind == "match" and not H.is_try(pa) and pa["scrut"] is x:
-            ok, det = classify_match(pa)
+            ok, det = classify_match(pa, prod)
         elif kind == "let" and "pat" in pa and pa.get("init") is x and pa["pat"].get("k") == "ts":
             # if let Err(e) = <call> { return Ok(error object) }
             gp = par.get(id(pa))
@@ -112,7 +116,7 @@ def consumers(F, g, p, b):
             lid = pa["pat"]["id"]
             ms = [m for m in H.walk(b) if m.get("k") == "match" and not H.is_try(m) and H.local_id(H.strip(m["scrut"])) == lid]
             if len(ms) == 1:
-                ok, det = classify_match(ms[0])
+                ok, det = classify_match(ms[0], prod)
                 det = "bound to `%s`, then: %s" % (pa["pat"]["name"], det)
             else:
                 det = "bound to `%s` and matched %d times" % (pa["pat"]["name"], len(ms))
@@ -123,7 +127,7 @@ def consumers(F, g, p, b):
                             inl = H.inline_helpers(F, c2, depth=1)
                             ms2 = [m for m in H.walk(inl) if m.get("k") == "match" and not H.is_try(m) and H.local_id(H.strip(m["scrut"])) == lid]
                             if len(ms2) == 1:
-                                ok, det = classify_match(ms2[0])
+                                ok, det = classify_match(ms2[0], prod)
                                 det = "bound to `%s`, handed to %s, there: %s" % (pa["pat"]["name"], H.last(c2["callee"]), det)
         elif kind == "match" and not H.is_try(pa) and pa["scrut"] is not x:
             # value of a match arm: follow the enclosing let binding to where it is matched
@@ -134,7 +138,7 @@ def consumers(F, g, p, b):
                 lid = cur["pat"]["id"]
                 ms = [m for m in H.walk(b) if m.get("k") == "match" and not H.is_try(m) and H.local_id(H.strip(m["scrut"])) == lid]
                 if len(ms) == 1:
-                    ok, det = classify_match(ms[0])
+                    ok, det = classify_match(ms[0], prod)
                     det = "value of a match arm bound to `%s`, then: %s" % (cur["pat"]["name"], det)
         elif kind == "call" and H.last(pa.get("ctor", "")) == "Ok":
             # Ok(<io result>) as the value of a match that is `?`-ed into a local, which is then matched
@@ -145,7 +149,7 @@ def consumers(F, g, p, b):
                 lid = cur["pat"]["id"]
                 ms = [m for m in H.walk(b) if m.get("k") == "match" and not H.is_try(m) and H.local_id(H.strip(m["scrut"])) == lid]
                 if len(ms) == 1:
-                    ok, det = classify_match(ms[0])
+                    ok, det = classify_match(ms[0], prod)
                     det = "wrapped in Ok(..), bound to `%s`, then: %s" % (cur["pat"]["name"], det)
         elif kind == "mcall" and pa["m"] in ("map", "and_then", "inspect") and pa.get("recv") is x and is_io_result(pa):
             # `File::open(path).map(|file| ..)`: the failure is carried unchanged into a value that is a producer of its own here
@@ -171,7 +175,7 @@ def consumers(F, g, p, b):
                 lid = up["pat"]["id"]
                 ms = [m for m in H.walk(b) if m.get("k") == "match" and not H.is_try(m) and H.local_id(H.strip(m["scrut"])) == lid]
                 if len(ms) == 1:
-                    ok, det = classify_match(ms[0])
+                    ok, det = classify_match(ms[0], prod)
                     det = "value of a block bound to `%s`, then: %s" % (up["pat"]["name"], det)
         if not ok:
             # the value of a conditional (an arm of a match, a branch, a block) that is itself what a match examines
@@ -187,7 +191,7 @@ def consumers(F, g, p, b):
                     continue
                 break
             if cur is not x and up is not None and up.get("k") == "match" and not H.is_try(up) and up["scrut"] is cur:
-                ok, det = classify_match(up)
+                ok, det = classify_match(up, prod)
                 det = "value of a conditional that is matched: " + det
         out.append((key, ok, det, loc))
     return out
@@ -222,7 +226,8 @@ def run(F, R, tier):
                 rt = ((gc.get("mir") or {}).get("locals") or [{}])[0].get("ty", "")
                 return c in tab.values() or "std::io::Error" in rt or gc.get("file") != g["file"]
             res2 = consumers(F, g, p, H.beta(H.unlet(H.split_tuple_lets(H.inline_helpers(F, b, max_size=200, skip=keep_)))))
-            if res2 and all(r[1] for r in res2):
+            if res2 and (all(r[1] for r in res2) or sum(1 for r in res2 if not r[1]) <= sum(1 for r in res if not r[1])):
+                # (also when it does not pass: what is wrong is said about the code as it reads with its helpers in place)
                 res = [(k_, o_, "in normal form: " + d_, l_) for k_, o_, d_, l_ in res2]
         n_sites += len(res)
         for key, ok, det, loc in res:
